@@ -7,11 +7,11 @@ import common
 import harness
 import wirecorr
 
-PROP_FILES = ["N2k/Props/C06.lean", "N2k/Props/C06Msg.lean"]
-LEAN_TARGETS = ["N2k.Props.C06", "N2k.Props.C06Msg"]
+PROP_FILES = ["N2k/Props/C06.lean", "N2k/Props/C06Msg.lean", "N2k/Props/C06Yd.lean"]
+LEAN_TARGETS = ["N2k.Props.C06", "N2k.Props.C06Msg", "N2k.Props.C06Yd"]
 SUITE_NAMES = ["wire-encoders", "wire-decoders", "encoder-messages", "encoder-shared-instance"]
 ASSUMPTIONS = ["frame level: identifiers < 2^32, at most 8 data bytes per frame; message level (C06_message_trip_*): Single/Fast definitions, canonical addressing (PDU1 PGN with low byte 0, broadcast PGN to 255), the decoder's record does not already hold the counter; that the payload decodes back to the field values is C09/C02",
-               "Yacht Devices at message level is covered by the correspondence and the monitor, not by a theorem (the line needs the gateway's timestamp/direction tokens)",
+               "Yacht Devices at message level (C06_message_trip_yd): the gateway prepends its `hh:mm:ss.mmm R|T` tokens and the CR LF is stripped; a single-frame payload has 1..8 bytes",
                "text input on the strict grammar; the `A<sec>.<ms>` / `hh:mm:ss.mmm R` tokens the gateways prepend are supplied by the harness"]
 TRUSTED_EXTRA = ["C06: Model/Wire.lean hand model of the four encoders and five decoders, tied by differential runs",
                  "C06: Model/Encoder.lean hand model of NMEA2000Encoder._encode and the encode_* wrappers, tied by the encoder-messages suite (every encodable definition through the real encoder)"]
